@@ -124,6 +124,7 @@ fn sample_of(case: &Case, out: &check::Outcome) -> serde_json::Value {
         .collect();
     let fault = match case {
         Case::Faulted { thread, idx, kind, path, .. } => json!({"thread": thread, "before_call": idx, "kind": format!("{kind:?}"), "path": path}),
+        Case::HardIo { at, .. } => json!({"kind": "hard I/O error (observational)", "at_data_call": at}),
         _ => json!(null),
     };
     json!({
@@ -141,7 +142,7 @@ fn sample_of(case: &Case, out: &check::Outcome) -> serde_json::Value {
     })
 }
 
-fn run_worker(prop: &str, base_seed: u64, from: u64, to: u64, stride: u64, offset: u64, minimise_budget: usize, known: &[findings::Known]) -> WorkerReport {
+fn run_worker(prop: &str, base_seed: u64, from: u64, to: u64, stride: u64, offset: u64, minimise_budget: usize, max_unknown: usize, known: &[findings::Known]) -> WorkerReport {
     let mut rep = WorkerReport::default();
     let mut i = from + offset;
     while i < to {
@@ -162,7 +163,7 @@ fn run_worker(prop: &str, base_seed: u64, from: u64, to: u64, stride: u64, offse
             }
             *rep.profiles.entry(case.plan().profile.clone()).or_insert(0) += 1;
             let f = &case.plan().cfg.faults;
-            for (k, on) in [("short_write", f.short_write > 0), ("short_read", f.short_read > 0), ("eintr", f.eintr > 0), ("hard_io", f.hard_io_at.is_some())] {
+            for (k, on) in [("short_write", f.short_write > 0), ("short_read", f.short_read > 0), ("eintr", f.eintr > 0), ("hard_io", matches!(case, Case::HardIo { .. }))] {
                 if on {
                     *rep.enabled.entry(k.to_string()).or_insert(0) += 1;
                 }
@@ -199,7 +200,7 @@ fn run_worker(prop: &str, base_seed: u64, from: u64, to: u64, stride: u64, offse
                     findings::matching(known, prop, &v).is_none()
                 });
                 let must = raw_unknown.is_some();
-                if (must && rep.violations.len() < minimise_budget + 40) || rep.violations.len() < minimise_budget {
+                if (must && rep.violations.len() < minimise_budget + max_unknown) || rep.violations.len() < minimise_budget {
                     let target = raw_unknown.cloned().unwrap_or_else(|| out.own[0].clone());
                     let original_ops = case.plan().n_ops();
                     // confirm by re-execution, then minimise
@@ -558,6 +559,11 @@ fn cmd_replay(args: &[String]) -> i32 {
         let plan = match &case {
             Case::Plain { plan } => plan.clone(),
             Case::Faulted { base, idx, kind, path, .. } => gen::with_obstacle(base, *idx, *kind, path),
+            Case::HardIo { base, at } => {
+                let mut p = base.clone();
+                p.cfg.faults.hard_io_at = Some(*at);
+                p
+            }
         };
         let e = exec::execute(&plan, exec::ExecOpts::default());
         for c in &e.calls {
@@ -659,8 +665,32 @@ fn cmd_dump() -> i32 {
     0
 }
 
+fn start_watchdog() {
+    std::thread::spawn(|| {
+        let mut last = 0;
+        let mut idle = 0u32;
+        loop {
+            std::thread::sleep(std::time::Duration::from_secs(5));
+            let now = check::PROGRESS.load(std::sync::atomic::Ordering::Relaxed);
+            if now == last {
+                idle += 1;
+            } else {
+                idle = 0;
+                last = now;
+            }
+            if idle >= 36 {
+                eprintln!("HARNESS ERROR: no simulated case completed for 180 s (simulation stalled: code under test is probably blocking on something the scheduler does not control)");
+                std::process::exit(2);
+            }
+        }
+    });
+}
+
 fn main() {
     let args: Vec<String> = std::env::args().skip(1).collect();
+    if matches!(args.first().map(String::as_str), Some("worker") | Some("replay")) {
+        start_watchdog();
+    }
     let code = match args.first().map(String::as_str) {
         Some("run") => cmd_run(&args[1..]),
         Some("worker") => {
@@ -668,7 +698,8 @@ fn main() {
             let prop = a[0].clone();
             let g = |n: &str| arg(a, n).and_then(|s| s.parse::<u64>().ok()).unwrap_or(0);
             let known = findings::load(arg(a, "--known").unwrap_or("/verif/known_findings.json"));
-            let rep = run_worker(&prop, g("--seed"), g("--from"), g("--to"), g("--stride").max(1), g("--offset"), g("--budget") as usize, &known);
+            let max_unknown = std::env::var("VERIF_MAX_MINIMISE").ok().and_then(|s| s.parse().ok()).unwrap_or(40usize);
+            let rep = run_worker(&prop, g("--seed"), g("--from"), g("--to"), g("--stride").max(1), g("--offset"), g("--budget") as usize, max_unknown, &known);
             println!("{}", serde_json::to_string(&rep).unwrap());
             0
         }
